@@ -171,6 +171,11 @@ def eval_seq(op, seq):
                 bad.append(("lock-held-while-suspended", f"{op} {seq}: the AE lock is held while the response iterator is suspended (after yield {len(got)})"))
             kind = "none" if ds is None else ("failed" if "FailedSOPInstanceUIDList" in ds else "ds")
             got.append((int(st.Status) if "Status" in st else None, kind))
+            # a caller may stop iterating at the first non-Pending response (`break`, or a bare next()):
+            # at that suspension point the operation is over, so the association's own reactor must
+            # already have been let go - nothing of it may depend on the iterator being exhausted
+            if got[-1][0] not in (0xFF00, 0xFF01) and not assoc._reactor_checkpoint.is_set():
+                bad.append(("reactor-held-at-final-response", f"{op} {seq}: the reactor checkpoint is still cleared while the iterator is suspended at its final response {got[-1]}"))
             if len(got) > len(seq) + 3:
                 bad.append(("runaway", f"{op} {seq}: iterator yields more than the peer sent"))
                 break
